@@ -89,6 +89,18 @@ def case_id(c):
     return op_id(c["a"]) + "__" + op_id(c["b"])
 
 
+INT_CONSTS = [-2, -1, 0, 1, 2, 3, 5, 63, 64]
+FLT_CONSTS = ["2.0", "0.5", "-1.0", "-0.5", "-2.0", "3.0"]
+
+
+def mirrored_table_cases():
+    """The operand forms of Pow.tla's TableCases (checked against what TLC publishes)."""
+    ops = [{"k": "var", "t": t, "n": 0, "f": "-"} for t in CTYPE]
+    ops += [{"k": "cint", "t": "long", "n": n, "f": "-"} for n in INT_CONSTS]
+    ops += [{"k": "cflt", "t": "double", "n": 0, "f": f} for f in FLT_CONSTS]
+    return [{"cpow": cpow, "a": a, "b": b} for cpow in (False, True) for a in ops for b in ops if a["k"] == "var" or b["k"] == "var"]
+
+
 def types_source(cases, cpow):
     """One function returning {case id: cython.typeof(a ** b)} for every table case of this cpow."""
     src = ["# cython: language_level=3, cpow=%s" % cpow, "cimport cython", "", "def pow_types(o):"]
